@@ -43,6 +43,14 @@ Print Assumptions C07_invariant_any_input.
 
 (* the reader the tie executes trims Unicode whitespace exactly as Go does (R2u); on text without the UTF-8
    encoding of a non-ASCII Unicode space it is the reader of the theorems above *)
+Require LR.
+(* the source: the incremental line reader (bufio ReadString over any io.Reader), fed whatever chunks the source
+   delivers, produces the lines of the whole text; so the reader's result does not depend on the chunking *)
+Theorem C07_any_source : forall chunks, LR.read_all_chunked chunks = R2.read_all (List.concat chunks).
+Proof. exact LR.read_all_any_source. Qed.
+Theorem C07_lines_of_any_chunking : forall chunks, LR.feed_all [] chunks = lines_of (List.concat chunks).
+Proof. exact LR.feed_all_is_lines_of. Qed.
+Print Assumptions C07_any_source.
 Require R2u.
 Theorem C07_exact_reader_agrees : forall x, Forall R2u.uclean (lines_of x) -> R2u.read_all_u x = read_all x.
 Proof. exact R2u.read_all_u_clean. Qed.
